@@ -1,5 +1,5 @@
 """C15 — conversions between hash variants lose nothing (field-level clauses)."""
-from ..rules import fields, tail, convert, eqord, vis, rle, summary, normal, beliefs
+from ..rules import fields, tail, convert, eqord, vis, rle, summary, normal, beliefs, data
 
 EXPL = ("Decides with the write census over MIR: every conversion copies each field from the like-named (like-indexed) field of the "
         "source; every function writing through a &mut hash destination defines all five fields on every normal return, arrays "
@@ -30,6 +30,7 @@ def run(ctx):
         ctx.guard("C15", "runs", lambda: normal.run_limit_agreement(ctx, prog))
         ctx.guard("C15", "traits", lambda: vis.trait_census(ctx, prog, scope='core::convert::'))
         ctx.guard("C15", "sym", lambda: eqord.len_index_symmetry(ctx, prog, scope=CONV, floor=4))
+        ctx.guard("C15", "const values", lambda: data.const_census(ctx, prog, data.CONST_SCOPES["C15"], floor=1))
         ctx.guard("C15", "summaries", lambda: summary.check(ctx, prog, 'core::convert::|::to_long_form|::from_short_form|::to_raw_form|::from_raw_form|::from_normalized|::to_normalized|::as_normalized|::clone_normalized|::normalize$|::into_mut', floor=8))
         ctx.guard("C15", "generic consts", lambda: summary.check_consts(ctx, prog, floor=13))
         ctx.guard("C15", "path summaries", lambda: summary.check_paths(ctx, prog, 'core::convert::|::to_long_form|::from_short_form|::to_raw_form|::from_raw_form|::from_normalized|::to_normalized|::as_normalized|::clone_normalized|::normalize$|::into_mut', floor=0))
